@@ -9,7 +9,9 @@
 //!                  inside their own spans; the "cb" record of a hook carries step id 90001 (before) / 90002 (after)),
 //!        "which_after": bool (a `which_scenario` classifier installed AFTER init_tracing()),
 //!         "steps": [{"id": st, "pre": n, "yields": n, "post": n, "inner": bool (messages are emitted inside a user
-//!                    span nested in the step's span), "under": bool (the message text contains double underscores)}]}]}
+//!                    span nested in the step's span), "under": bool (the message text contains double underscores),
+//!                    "leak": bool (a clone of the step's span is held beyond the step's end and dropped inside a step of
+//!                    another scenario: the span outlives its future, the close arrives AFTER the subscription)}]}]}
 //! History records: ["cb", scenario, step, attempt, span] ["emit", scenario, message id, span] ["close", span] ["sub", span] ["fwd"]
 //!                  ["ev", <event>] where a Log event is ["Scen", f, r, s, retries, ["LogMsg", message id | null]]
 
@@ -59,9 +61,66 @@ impl Future for YieldN {
     }
 }
 
+/// Like `YieldN`; every poll also ages the span clones other steps have leaked (see `leak` below) and drops those that
+/// are `LEAK_AGE` polls old. While such a future has more than `LEAK_AGE` polls left it is counted in `St::yielders`: a
+/// step leaks its span only when some other step is guaranteed to be polled often enough for the span to be closed.
+const LEAK_AGE: u64 = 5;
+struct DrainYield {
+    left: u64,
+    counted: bool,
+}
+impl DrainYield {
+    fn new(n: u64) -> Self {
+        let counted = n > LEAK_AGE;
+        if counted {
+            ST.with(|s| s.borrow_mut().yielders += 1);
+        }
+        DrainYield { left: n, counted }
+    }
+    fn uncount(&mut self) {
+        if self.counted {
+            self.counted = false;
+            ST.with(|s| s.borrow_mut().yielders -= 1);
+        }
+    }
+}
+impl Drop for DrainYield {
+    fn drop(&mut self) {
+        self.uncount();
+    }
+}
+impl Future for DrainYield {
+    type Output = ();
+    fn poll(mut self: Pin<&mut Self>, cx: &mut Context<'_>) -> Poll<()> {
+        let old: Vec<tracing::Span> = ST.with(|s| {
+            let mut s = s.borrow_mut();
+            for l in &mut s.leaked {
+                l.1 += 1;
+            }
+            let (old, young): (Vec<_>, Vec<_>) = std::mem::take(&mut s.leaked).into_iter().partition(|l| l.1 >= LEAK_AGE);
+            s.leaked = young;
+            old.into_iter().map(|l| l.0).collect()
+        });
+        drop(old); // these spans close here, inside another scenario's step, after their waiters have subscribed
+        if self.left <= LEAK_AGE {
+            self.uncount();
+        }
+        if self.left == 0 {
+            Poll::Ready(())
+        } else {
+            self.left -= 1;
+            cx.waker().wake_by_ref();
+            Poll::Pending
+        }
+    }
+}
+
 #[derive(Default)]
 struct St {
     steps: BTreeMap<u64, (u64, u64, u64, bool, bool)>, // step id -> pre, yields, post, inner, under
+    leaky: std::collections::BTreeSet<u64>, // steps that hold a clone of their span beyond their own end
+    leaked: Vec<(tracing::Span, u64)>,   // with the number of yield polls seen since
+    yielders: u64,
     nsteps: BTreeMap<u64, u64>,
     fails: BTreeMap<u64, u64>,
     visits: BTreeMap<u64, u64>,
@@ -138,8 +197,18 @@ fn logging_step(_: &mut W, ctx: step::Context) -> LocalBoxFuture<'_, ()> {
             }
         };
         say(pre);
-        YieldN(yields).await;
+        DrainYield::new(yields).await;
         say(post);
+        // `leak`: the span outlives the step's future (as when a task spawned `.in_current_span()` is still alive): a
+        // clone of it is parked until a step of another scenario is polled — only if one is certain to be
+        let leak = ST.with(|s| {
+            let s = s.borrow();
+            s.leaky.contains(&stid) && s.yielders > 0
+        });
+        if leak {
+            let sp = tracing::Span::current();
+            ST.with(|s| s.borrow_mut().leaked.push((sp, 0)));
+        }
         if last && k < nfail {
             std::panic::panic_any(format!("panic#{}", 1 + k));
         }
@@ -233,6 +302,9 @@ fn main() {
         for st in sc["steps"].as_array().into_iter().flatten() {
             let stid = st["id"].as_u64().unwrap_or(0);
             s.steps.push(util::step(gherkin::StepType::Given, &format!("log {sid}"), stid as usize));
+            if st["leak"].as_bool().unwrap_or(false) {
+                ST.with(|x| x.borrow_mut().leaky.insert(stid));
+            }
             ST.with(|x| {
                 x.borrow_mut().steps.insert(
                     stid,
